@@ -61,8 +61,19 @@ type Scenario struct {
 	NoParent bool  `json:"noparent,omitempty"` // the directory the lock lives in does not exist (oracle only, no Coq case)
 	Short   bool   `json:"short,omitempty"` // the generator may issue LockWithTimeout calls whose deadline fires
 	Atomic  bool   `json:"atomic,omitempty"` // generate under the atomic-release restriction (no Mkdir of another contender succeeds inside a release window)
+	Sys     *SysSpec `json:"sys,omitempty"` // systematic (preemption-bounded) schedule: scripts + the preemption decisions
 	Seed    int64  `json:"seed,omitempty"` // >0: items are generated online from this seed (MaxItems of them)
 	Max     int    `json:"max,omitempty"`
+}
+
+// SysSpec: every contender runs its script of calls; scheduling is non-preemptive (a thread runs until its script is
+// exhausted; a blocking Lock that keeps polling yields) except at the preemption points listed in Dec: point number ->
+// thread to switch to.  Preemption points: before a Mkdir / Remove / Stat / Readdirnames of a thread and before the
+// operation that follows a Mkdir / Remove.
+type SysSpec struct {
+	Scripts [][]string  `json:"scripts"`
+	Prefix  []Item      `json:"prefix,omitempty"`
+	Dec     map[int]int `json:"dec,omitempty"`
 }
 
 type StepObs struct {
@@ -88,6 +99,8 @@ type Outcome struct {
 	Acq     int    // successful acquires
 	Rel     int    // successful unlocks
 	Kinds   map[string]int
+	Points  int           // systematic runs: preemption points met
+	Alts    map[int][]int // systematic runs: threads that could have been switched to at each point
 }
 
 var apis = []string{"TryLock", "Lock", "LockWithTimeout", "Unlock"}
@@ -793,12 +806,172 @@ func (e *engine) generate(rng *rand.Rand, max int) {
 	}
 }
 
+// ---------------- systematic, preemption-bounded schedules ----------------
+
+func (e *engine) systematic(sp *SysSpec, max int) {
+	for _, it := range sp.Prefix {
+		if !e.exec(it) {
+			return
+		}
+	}
+	n := len(e.cs)
+	pos := make([]int, n)
+	afterMut := make([]bool, n) // the thread's previous operation was a Mkdir / Remove
+	resumed := make([]bool, n)  // the thread has just been switched to: its pending operation is not a new point
+	polls := make([]int, n)
+	e.out.Alts = map[int][]int{}
+	hasWork := func(c int) bool {
+		x := e.cs[c]
+		if !x.alive || c >= len(sp.Scripts) {
+			return false
+		}
+		if x.inCall {
+			return true
+		}
+		for pos[c] < len(sp.Scripts[c]) {
+			if (sp.Scripts[c][pos[c]] == "Unlock") == x.holds {
+				return true
+			}
+			pos[c]++ // an Unlock without holding / an acquire while holding is skipped
+		}
+		return false
+	}
+	others := func(c int) (out []int) {
+		for d := 0; d < n; d++ {
+			if d != c && hasWork(d) {
+				out = append(out, d)
+			}
+		}
+		return
+	}
+	cur := -1
+	for len(e.out.Items) < max {
+		if cur < 0 || !hasWork(cur) {
+			cur = -1
+			for d := 0; d < n; d++ {
+				if hasWork(d) {
+					cur = d
+					break
+				}
+			}
+			if cur < 0 {
+				return
+			}
+			resumed[cur] = true
+		}
+		x := e.cs[cur]
+		if !x.inCall {
+			api := sp.Scripts[cur][pos[cur]]
+			pos[cur]++
+			polls[cur] = 0
+			if !e.exec(Item{K: "call", C: cur, Api: api}) {
+				return
+			}
+			continue
+		}
+		p := e.s.Peek(lsched.Main(cur))
+		if p == nil {
+			return
+		}
+		mut := p.Op == "Mkdir" || p.Op == "Remove"
+		// preemption points: before a mutating operation, before the operation that follows one, and before every
+		// observation of the lock directory / heartbeat file that decides something (Stat, Readdirnames)
+		if (mut || afterMut[cur] || p.Op == "Stat" || p.Op == "Readdir") && !resumed[cur] {
+			idx := e.out.Points
+			e.out.Points++
+			alts := others(cur)
+			e.out.Alts[idx] = alts
+			if t, ok := sp.Dec[idx]; ok {
+				for _, a := range alts {
+					if a == t {
+						cur = t
+						resumed[cur] = true
+						break
+					}
+				}
+				if cur == t {
+					continue
+				}
+			}
+		}
+		resumed[cur] = false
+		it := Item{K: "step", C: cur}
+		if p.Op == "Stat" && e.curGen >= 0 && !e.liveOwner() {
+			it.Stale = true // the most permissive sound oracle: whatever is not a live holder's is stale
+		}
+		wasMkdirOnExisting := p.Op == "Mkdir" && e.curGen >= 0
+		if !e.exec(it) {
+			return
+		}
+		afterMut[cur] = mut
+		if wasMkdirOnExisting && e.cs[cur].inCall && (x.api == "Lock" || x.api == "LockWithTimeout") {
+			// a blocking acquire that keeps polling yields to the others (not a counted preemption)
+			polls[cur]++
+			if polls[cur] >= 2 {
+				o := others(cur)
+				if len(o) == 0 {
+					if polls[cur] >= 4 {
+						return
+					}
+				} else {
+					polls[cur] = 0
+					cur = o[0]
+					resumed[cur] = true
+				}
+			}
+		}
+	}
+}
+
+// enumerate runs every schedule of the configuration with at most depth preemptions (breadth first, capped).
+func enumerate(tag string, ovr []bool, sp SysSpec, depth, capRuns int, runRoot string, each func(*job)) int {
+	type node struct {
+		dec  map[int]int
+		last int
+	}
+	level := []node{{dec: map[int]int{}, last: -1}}
+	total := 0
+	for d := 0; d <= depth && len(level) > 0 && total < capRuns; d++ {
+		if total+len(level) > capRuns {
+			level = level[:capRuns-total]
+		}
+		jobs := make([]*job, len(level))
+		for i, nd := range level {
+			spec := sp
+			spec.Dec = nd.dec
+			jobs[i] = &job{sc: &Scenario{Tag: fmt.Sprintf("%s:d%d", tag, d), Backend: "os", Ovr: ovr, Sys: &spec}}
+		}
+		runAll(jobs, runRoot, 24, time.Hour)
+		total += len(jobs)
+		var next []node
+		for i, j := range jobs {
+			each(j)
+			if d == depth || j.out == nil {
+				continue
+			}
+			for pt := level[i].last + 1; pt < j.out.Points; pt++ {
+				for _, t := range j.out.Alts[pt] {
+					dec := map[int]int{pt: t}
+					for k, v := range level[i].dec {
+						dec[k] = v
+					}
+					next = append(next, node{dec: dec, last: pt})
+				}
+			}
+		}
+		level = next
+	}
+	return total
+}
+
 func runScenario(sc *Scenario, runRoot string) *Outcome {
 	e, err := newEngine(sc, runRoot)
 	if err != nil {
 		return &Outcome{Stuck: "setup: " + err.Error(), Kinds: map[string]int{}}
 	}
-	if sc.Seed > 0 {
+	if sc.Sys != nil {
+		e.systematic(sc.Sys, 900)
+	} else if sc.Seed > 0 {
 		e.generate(rand.New(rand.NewSource(sc.Seed)), sc.Max)
 	} else {
 		for _, it := range sc.Items {
@@ -1211,6 +1384,24 @@ func main() {
 		if j.out != nil {
 			process(j, true)
 		}
+	}
+	// 4. thorough tier: systematic preemption-bounded enumeration (2 contenders: <= 3 preemptions, 3 contenders: <= 2)
+	if r.Thorough() || r.Deep {
+		each := func(j *job) {
+			if j.out != nil {
+				process(j, true)
+			}
+		}
+		cyc := []string{"TryLock", "Unlock"}
+		n := 0
+		n += enumerate("sys2", []bool{false, true}, SysSpec{Scripts: [][]string{{"TryLock", "Unlock", "TryLock", "Unlock"}, cyc}}, 3, 2000, runRoot, each)
+		n += enumerate("sys2-lock", []bool{true, false}, SysSpec{Scripts: [][]string{cyc, {"Lock", "Unlock"}}}, 3, 2000, runRoot, each)
+		n += enumerate("sys3", []bool{false, true, false}, SysSpec{Scripts: [][]string{cyc, cyc, {"Lock", "Unlock"}}}, 2, 2000, runRoot, each)
+		n += enumerate("sys3-dead", []bool{false, true, true}, SysSpec{Scripts: [][]string{nil, cyc, cyc},
+			Prefix: one(call(0, "TryLock"), fin(0, false), kill(0))}, 2, 2000, runRoot, each)
+		n += enumerate("sys3-dead-hb", []bool{false, true, true}, SysSpec{Scripts: [][]string{nil, cyc, {"LockWithTimeout", "Unlock"}},
+			Prefix: one(call(0, "TryLock"), fin(0, false), hb(0, 0), hb(0, 0), kill(0))}, 2, 2000, runRoot, each)
+		r.CountN("systematic-schedules", n)
 	}
 	r.Finish()
 }
